@@ -90,6 +90,7 @@ POS_KERNELS = ("exponential", "inversegamma", "loglaplace", "lognormal")
 SYM_KERNELS = ("laplace", "normal", "super_gaussian", "triangular")
 # container dtypes of the dtype class (C18 quantifies over signals and kernels, not over float64 arrays only)
 DTYPES = ["int32", "int64", "uint8", "float32", "float64"]
+KERNEL_TOL = 1e-8           # |weight - modelled weight| (weights lie in [0, 1]; the float axis is within an ulp of the exact one)
 TOL64, TOL32 = 1e-8, 1e-4   # deconvolution tolerance (relative to 1 + max|x|); float32 anywhere: rfft works in complex64
 
 
@@ -869,7 +870,7 @@ class C18(Prop):
                 "non_negative": bool(shape_ok and all(v >= 0 for v in y)),
                 "sums_to_one": bool(shape_ok and abs(math.fsum(y) - 1.0) <= 1e-9)}
         spec = {"shape": [size, 2], "axis_matches_linspace": True, "finite": True, "non_negative": True, "sums_to_one": True}
-        model, model_ok = {"axis": "lean linspace", "values": "not modelled"}, axis_ok
+        model, model_ok, valued = {"axis": "lean linspace", "values": "not compared"}, axis_ok, False
         if name == "triangular" and shape_ok:
             # an axis point within rounding of a kink / support edge may fall on either side of it in floating point
             # (and the density jumps at 0 when a == 0 or b == 0): compare value by value only when every such point is
@@ -879,7 +880,24 @@ class C18(Prop):
                        for v, xi in zip(axq, x) for e in edges)
             model_ok = axis_ok and (edge or all(abs(a - b) <= 1e-9 for a, b in zip(y, my)))
             model = {"axis": "lean linspace", "values": "lean triangular" + (" (edge within rounding: skipped)" if edge else "")}
+        elif shape_ok:
+            # the generator as modelled (density formula as coded, normalisation, stacking), the opaque exp / log / power /
+            # sqrt(2 pi) evaluated by the driver to 40 digits; weight by weight
+            margs = [float(int(v)) if name == "super_gaussian" and i == 2 else v for i, v in enumerate(args)]
+            rk = ctx.driver.call("c18.kernel", name=name, size=size, args=[core.rat(v) for v in margs],
+                                 scale=core.rat(scale), shift=core.rat(shift))
+            if rk["y"] is None:
+                model = {"axis": "lean linspace", "values": "a modelled value left the domain of exp / log / power: not compared"}
+            else:
+                my = [fl(v) for v in rk["y"]]
+                worst = max(abs(a - b) for a, b in zip(y, my)) if all(math.isfinite(v) for v in y) else math.inf
+                model_ok = axis_ok and worst <= KERNEL_TOL
+                model = {"axis": "lean linspace", "values": "lean " + name + " (40-digit exp/log/pow)",
+                         "weights_within": KERNEL_TOL if worst <= KERNEL_TOL else worst}
+                valued = True
         feats = {"kernel:" + name, "kernel:size=" + (str(size) if size <= 3 else "4+")}
+        if valued:
+            feats.add("kernel:weights-compared-with-the-model")
         if scale != 1.0:
             feats.add("kernel:scaled")
         if shift not in (0.0, 1e-6):
